@@ -357,6 +357,11 @@ func (st *programState) runSaveStatement(saveStatement parser.SaveStatement) ([]
 	}
 
 	balance := st.getCachedBalance(*account, *asset)
+	// an overdrawn account has nothing to save: its balance must not be raised to zero
+	var overdrawnBalance *big.Int
+	if balance.Sign() < 0 {
+		overdrawnBalance = new(big.Int).Set(balance)
+	}
 
 	if amt == nil {
 		balance.Set(big.NewInt(0))
@@ -375,6 +380,9 @@ func (st *programState) runSaveStatement(saveStatement parser.SaveStatement) ([]
 		if balance.Cmp(big.NewInt(0)) == -1 {
 			balance.Set(big.NewInt(0))
 		}
+	}
+	if overdrawnBalance != nil {
+		balance.Set(overdrawnBalance)
 	}
 
 	return nil, nil
